@@ -91,9 +91,24 @@ SPECIAL = [0, 1, Q - 1, 2, Q - 2, (Q - 1) // 2]
 
 def rand_elem(level, rng, shape=None):
     n = NCOEF[level]
-    shape = shape or rng.choice(['rand', 'rand', 'rand', 'special', 'sparse', 'subfield', 'mixed'])
+    shape = shape or rng.choice(['rand', 'rand', 'rand', 'special', 'sparse', 'subfield', 'mixed', 'mont-sparse'])
     if shape == 'rand':
         cs = [rng.randrange(Q) for _ in range(n)]
+    elif shape == 'mont-sparse':
+        # coefficients whose INTERNAL (Montgomery) limbs are sparse: low words zero in every coefficient, single words, single bits
+        rinv = pow(1 << 384, -1, Q)
+        low0 = rng.choice([0, 32, 64, 192, 192, 320])
+
+        def one():
+            v = 0
+            for w in range(low0 // 32, 12):
+                if rng.random() < 0.4:
+                    v |= rng.choice([1, 0xffffffff, 0x80000000, rng.getrandbits(32) | 1]) << (32 * w)
+            v = (v or (1 << low0)) % Q
+            return v * rinv % Q
+        cs = [one() if rng.random() < 0.8 else 0 for _ in range(n)]
+        if not any(cs):
+            cs[0] = one()
     elif shape == 'special':
         cs = [rng.choice(SPECIAL) for _ in range(n)]
     elif shape == 'sparse':
